@@ -12,8 +12,15 @@ PROPS = {"C05": dict(
               "Zrnt.Proofs.C05.tree_set_leaves", "Zrnt.Proofs.C05.htr_struct_and_view_agree_with_schema",
               "Zrnt.Proofs.C05.seedRandao_eq", "Zrnt.Proofs.C05.fillZeroes_eq", "Zrnt.Proofs.C05.rotation_eq", "Zrnt.Proofs.C05.handwritten_htr_sound",
               "Zrnt.Proofs.C05.bitlist_htr_bytes", "Zrnt.Proofs.C05.bitvector_htr_bytes", "Zrnt.Proofs.C05.bytelist_htr_bytes",
-              "Zrnt.Proofs.C05.uint64list_htr_chunks", "Zrnt.Proofs.C05.uint64vector_htr_chunks"],
-    modes=[dict(name="ssz"), dict(name="sszstate")],
+              "Zrnt.Proofs.C05.uint64list_htr_chunks", "Zrnt.Proofs.C05.uint64vector_htr_chunks",
+              "Zrnt.Proofs.C05.no_opaque_root_bodies", "Zrnt.Proofs.C05.checkType_root_struct", "Zrnt.Proofs.C05.checkType_root_list",
+              "Zrnt.Proofs.C05.checkType_root_vector", "Zrnt.Proofs.C05.checkType_root_bitfield", "Zrnt.Proofs.C05.checkType_root_leaf",
+              "Zrnt.Proofs.C05.root_soundness_covers_all_rows"],
+    # C05's view of the shared `ssz` result line: decode status and roots (struct `htr=`, `viewhtr=`, `view=err`). Lengths,
+    # the byte round trip and the JSON/YAML text belong to C04 and are not compared here.
+    modes=[dict(name="ssz", strip=[r" json=\S+", r" yaml=\S+", r" len=\d+", r" fixed=\d+", r" ser=\S+(?: bytes\))?",
+                                   r" viewser=bad", r" viewlen=\d+", r" viewfixed=\d+"]),
+           dict(name="sszstate")],
     level="proof",
     trusted_base=TB_COMMON + TB_SSZ + [
         "SHA-256 transcription lean/Zrnt/Sha256.lean (validated hash-by-hash by mode c19 and implicitly by every root compared here); theorems are parametric in the hash",
